@@ -255,3 +255,20 @@ PROPS['C15'] = dict(
     level_note='Trusted: GMP arithmetic and GMP string formatting used to build inputs (the library itself parses with GMP, so parsing is not independently modelled).',
     assumptions=['strings are those GMP itself accepts for the radix'],
 )
+
+HARNESSES['h_cubic'] = dict(src='h_cubic.cpp')
+
+PROPS['C09'] = dict(
+    title='Cubic extension arithmetic is exact in F_p[x]/(x^3 - x - 1)',
+    jobs=[J('h_cubic', 'fast2', 3_000_000, 300_000_000)],
+    rule='rapidcheck-generated coefficient triples from the boundary element classes (plus sparse and all-equal triples) for every scalar entry point: add/sub with element, base element, uint64; neg; mul by element (reference and pointer forms), '
+         'base element, uint64; square; div by base element; mulScalar by a decimal string of any sign and magnitude (k*p+d, several limbs); inv (both forms); batchInverse lengths 1..64 and up to 2000; isOne with (1,0,0), (1,y,z), (p+1,p,p), (0,0,0) generated deliberately; '
+         'copy/zero/one. Whole-operand aliasing result==a, result==b, a==b, all the same. Oracle: schoolbook product reduced by x^3 = x + 1 in u128; a*inv(a) = 1 and res[i]*src[i] = 1 with the reference multiplier (uniqueness of inverses); '
+         'batchInverse also equals element-wise inv. Non-trivial: non-canonical coefficient, aliasing, array length classes, string range classes. distinct = distinct operand tuples.',
+    expected_classes=['ext:non-canonical-coefficient', 'ext:result==a', 'ext:result==b', 'ext:a==b', 'ext:all-same', 'batchInverse:len=1', 'batchInverse:len>64', 'isOne:true-case', 'isOne:first-coefficient-one-but-not-one',
+                      'mulScalar:string-below--p', 'mulScalar:negative-string', 'mulScalar:string>=p', 'inv', 'div(E,base)', 'mul(E,E)', 'square'],
+    technique='rapidcheck property-based testing vs schoolbook reference in F_p[x]/(x^3-x-1); inverse round-trip oracle; aliasing dimension',
+    level_text='Generated-input search over all 18 scalar entry points plus batchInverse/mulScalar/isOne with an independent exact oracle. Sampling, not proof.',
+    level_note='Trusted: u128 reference; GMP for the string operand. Partial aliasing (a by-reference base operand pointing into the result) is outside the generated domain: the aliasing clause is read as whole-operand aliasing.',
+    assumptions=['batchInverse arrays are non-empty and contain non-zero elements', 'division by a non-zero base element'],
+)
